@@ -8,6 +8,7 @@ CALLS = [
     ('"ab"', "each_byte", ["Integer"]), ("3", "times", ["Integer"]), ('{a: 1, b: "s"}', "each", ["untyped", "Union<Integer String>"]),
     ("{a: 1.5}", "each", ["untyped", "Float"]), ('[[1, "a"], [2, "b"]]', "each", ["Integer", "String"]),
     ('{a: 1}.merge({b: "s"})', None, ["Symbol", "Integer", "String"]),            # a dynamic strategy (Hash#merge)
+    ("[]", "each", ["untyped"]), ("[Zk.new, Zk.new]", "each", ["Zk"]), ("{n: 1}", "each_with_index", ["Integer", "Integer"]),
     ("ur0", "each", ["Integer"]),                                                  # a union receiver: Array or Range
     ("ur1", "each", ["Union<Integer Float>"]),                                     # Range or Array<Float>
     ("ur2", "each_with_index", ["Union<String Symbol>", "Integer"]),               # Array<String> or Array<Symbol>: not a union receiver for ti
@@ -85,6 +86,8 @@ class Gen:
 
 def gen_program(r):
     g = Gen(r)
+    g.emit("class Zk", 0)
+    g.emit("end", 0)
     env = {}
     for _ in range(r.randint(0, 2)):
         v = g.fresh("x")
